@@ -201,9 +201,9 @@ def terminated(h):
         a, b = h.field(s, '_maxiter'), h.field(s, '_maxfun')
         lims = 'evals >= %(maxfun)s or gens >= %(maxiter)s' % L
         if h.is_sym():
-            kind = 'lim' if (isinstance(r, SStr) and r.parts and 'EvaluationLimits' in str(r.parts[0])) else \
-                   'sig' if (isinstance(r, SStr) and r.parts and 'SolverInterrupt' in str(r.parts[0])) else \
-                   'term' if isinstance(r, SStr) else 'none'
+            kind = 'lim' if ((isinstance(r, SStr) and r.parts and 'EvaluationLimits' in str(r.parts[0])) or (isinstance(r, str) and r.startswith('EvaluationLimits'))) else \
+                   'sig' if ((isinstance(r, SStr) and r.parts and 'SolverInterrupt' in str(r.parts[0])) or (isinstance(r, str) and r.startswith('SolverInterrupt'))) else \
+                   'term' if (isinstance(r, SStr) or (isinstance(r, str) and r != '')) else 'none'
         else:
             kind = 'lim' if str(r).startswith('EvaluationLimits') else 'sig' if str(r).startswith('SolverInterrupt') else \
                    'term' if r else 'none'
